@@ -28,6 +28,22 @@ def gen_kl():
         old_scan = True
     else:
         raise Fail("candidate scans: neither the repaired shape (let-else break + any test + one unwrap) nor the pinned one (two unwraps)")
+    # the two selection scans themselves: ONE sequential pass over all the vertices, gain / lock /
+    # weight zipped position by position and `enumerate()`d, so that `locked` and
+    # `initial_partition[*idx]` belong to the same vertex idx; no helper, no chunking
+    for k in (0, 1):
+        scan = (r"gains\s*\.iter\(\)\s*\.zip\(locks\.iter\(\)\)\s*\.zip\(weights\.iter\(\)\)\s*\.enumerate\(\)\s*"
+                r"\.filter\(\|\(idx,\s*\(\(_,\s*locked\),\s*_weight\)\)\|\s*\{\s*initial_partition\[\*idx\]\s*==\s*unique_ids\[%d\]\s*&&\s*!\*\*locked\s*\}\)\s*"
+                r"\.map\(\|\(idx,\s*\(\(gain,\s*_\),\s*_\)\)\|\s*\(idx,\s*\*gain\)\)\s*"
+                r"\.max_by\(\|\(_,\s*g1\),\s*\(_,\s*g2\)\|\s*g1\.partial_cmp\(g2\)\.unwrap\(\)\)") % k
+        if len(re.findall(scan, body)) != 1:
+            raise Fail("selection scan of side %d is not the sequential zip(gains, locks, weights).enumerate() scan "
+                       "indexed by the vertex itself" % k)
+    whole = re.sub(r"//[^\n]*", "", src)
+    if re.search(r"\b(par_)?(r)?chunks(_exact)?(_mut)?\b|\bsplit_at(_mut)?\b|\bwindows\b", whole):
+        raise Fail("kernighan_lin.rs scans vertices by chunks / sub-slices: the model's scans are over the whole arrays")
+    if len(re.findall(r"\blocks\b", body)) != len(re.findall(r"\blocks\b", whole)):
+        raise Fail("the lock flags are used outside kernighan_lin_2_impl (helper function?)")
     guarded = re.search(r"match\s+best\s*\{\s*Some\(\(pos,\s*cut\)\)\s+if\s+cut\s*<\s*cut_size\s*=>\s*\(pos,\s*cut\),\s*_\s*=>\s*\{\s*for\s+\(\(idx_1,\s*_\),\s*\(idx_2,\s*_\)\)\s+in\s+&saves\s*\{\s*initial_partition\.swap\(\*idx_1,\s*\*idx_2\);\s*\}\s*break;\s*\}\s*\}", body, re.S)
     min_unwrap = re.search(r"\.min_by\([^;]*?\)\s*\.unwrap\(\)\s*;", body, re.S)
     if guarded and not min_unwrap:
@@ -58,7 +74,7 @@ PROP = dict(
     bin="c15",
     run_targets=["Run/RunC15.vo"],
     prop_targets=["Properties/C15.vo"],
-    cases=dict(quick=8000, thorough=60000),
+    cases=dict(quick=8000, thorough=45000),
     level="proof",
     rule="graphs from 9 families (random symmetric at 4 densities, grid, path, star, disconnected, isolated incl. trailing "
          "isolated vertices, complete, cycle, tiny/edgeless/empty) x 3 edge-weight ranges x 7 partition families (balanced, "
@@ -67,7 +83,12 @@ PROP = dict(
          "max_bad_move_in_a_row 0..3; each graph run on one of three topology types: sprs CsMatView (60%, its own edge_cut override), "
          "harness-side adjacency lists with shuffled neighbour order (20%) and coupe::Grid 2-D / 3-D (20%, neighbour order "
          "x-1,x+1,y-1,y+1,..: not sorted) -- the last two use the trait's provided edge_cut and the model's generic cut; "
-         "plus a malformed stream (8%: weights shorter/longer than the partition, partition "
+         "plus (1 case in 320) graphs with more than 1024 vertices (block sizes of chunked / parallel scans): two heavy "
+         "paths over the first H >= 2^k vertices followed by small path gadgets at the highest indices (max_flips_per_pass "
+         "2..6, max_bad_move_in_a_row 1..3: a bad swap followed by good ones inside the gadget, nearly locally optimal "
+         "input), and planted bisections with 1025..2200 vertices (planted partition with 0..4 misplaced vertices, mostly at "
+         "indices >= 1024; with max_flips_per_pass Some(2..5) the model is evaluated, with no limit the case is judged by the "
+         "certified checker only -- field model_evaluated); plus a malformed stream (8%: weights shorter/longer than the partition, partition "
          "longer/shorter than the matrix, a directed edge or self-loop) and a known-finding stream (4%: more than two distinct "
          "ids); distinct = distinct (graph, weights length, partition, limits); non-trivial = contract stream, >= 4 vertices, "
          "two parts in use, at least one pass and one flip allowed",
@@ -99,7 +120,7 @@ MANIFEST = dict(
          "flags. Every implementation output is compared with the model's (exact partitions) and judged by a checker proved "
          "equivalent to the property (length, per-id counts, brute-force cut).",
     design_ref="DESIGN.md §7 C15",
-    note="Trusted: Coq kernel; the model<->code tie is the translator (three structural flags) plus differential runs (8k/60k cases, "
+    note="Trusted: Coq kernel; the model<->code tie is the translator (three structural flags) plus differential runs (8k/45k cases, "
          "exact partition equality); edge weights/gains are modelled in Z (integer-valued f64 below 2^53). No axioms. Inputs with "
          "more than two distinct ids panic (unimplemented!): known-finding class kl-not-two-parts, counted under C02, prop_ok = true here.",
     technique="Coq proof (loop invariants over the swap history; disjoint transpositions commute) + translator + model/implementation "
